@@ -156,7 +156,7 @@ def run(rep, tier):
     rep.check(okd, "R4.2", "denormalise|two-body", "target x 1/(V norm) x shell volume: exact inverse of the output normalisation", "CalcDeltaS: " + whyd,
               fd.loc(t2[0]["node"] if t2 else None), sample=True)
     # bonded / three-body
-    wb = [e for e in fow.events if e["kind"] == "store" and e["target"] == "dist.y()"]
+    wb = [e for e in fow.events if e["kind"] == "store" and "dist.y()" in (e["target"], e.get("target_val"))]
     rep.floor("R4.2", len(wb), 2, "whole-vector normalisations in WriteDist")
     for k, e in enumerate(wb):
         val = e["value"]
@@ -217,7 +217,7 @@ def run(rep, tier):
         if e["kind"] == "call":
             o = str(e["obj"])
             for fld in ("avg_vol_", "average_force_", "average_", "corr_"):
-                if o.endswith(fld):
+                if re.search(r"(^|[^\w])%s($|[^\w])" % fld, o):
                     reset.add(fld)
                     break
     written = {"nframes_", "avg_vol_", "average_", "average_force_", "corr_"}
